@@ -177,6 +177,11 @@ func (fr *Frame) callWith0(st *State, c *ssa.CallCommon, args []Val, site ssa.In
 				if g, ok := ld.X.(*ssa.Global); ok && g.Pkg != nil {
 					key = g.Pkg.Pkg.Name() + "." + g.Name()
 				}
+				// call through a struct field holding a function: named after the
+				// field, so that call-site assertions can pin its arguments
+				if fa, ok := ld.X.(*ssa.FieldAddr); ok {
+					key = "field." + fieldName(fa)
+				}
 			}
 		}
 		if callee != nil {
@@ -371,6 +376,9 @@ func (fr *Frame) siteOrdinal(site ssa.Instruction, key string) (int, bool) {
 					case *ssa.UnOp:
 						if g, ok := v.X.(*ssa.Global); ok && g.Pkg != nil {
 							k = g.Pkg.Pkg.Name() + "." + g.Name()
+						}
+						if fa, ok := v.X.(*ssa.FieldAddr); ok {
+							k = "field." + fieldName(fa)
 						}
 					}
 				}
@@ -1644,4 +1652,13 @@ func (fr *Frame) topContract() *Contract {
 		return fr.contract
 	}
 	return nil
+}
+
+func fieldName(fa *ssa.FieldAddr) string {
+	if pt, ok := fa.X.Type().Underlying().(*types.Pointer); ok {
+		if st, ok := pt.Elem().Underlying().(*types.Struct); ok && fa.Field < st.NumFields() {
+			return st.Field(fa.Field).Name()
+		}
+	}
+	return "?"
 }
